@@ -33,7 +33,7 @@ def l51(api, maxfrag):
     payload, L = rope.blob('p', 0, None)
     assume(L <= Packet.MAX_PAYLOAD_SIZE + maxfrag * Packet.MAX_FRAGMENT_SIZE)
     cb = Rec('user')
-    if api == 'client':
+    if api.startswith('client'):
         u = client_mod.UdpClient()
         u.conn = proto.mk_client_side()
         c = u.conn
@@ -42,7 +42,12 @@ def l51(api, maxfrag):
         c = proto.mk_server_side()
         target = c
     try:
-        target.send_guaranteed(payload, cb)
+        if api == 'client_send':
+            target.send(payload, retry=RetryMode.RETRY_ON_TIMEOUT, callback=cb)     # UdpClient.send with the guaranteed mode
+        elif api == 'client_send_default':
+            target.send(payload, callback=cb)                                       # the client's default retry mode is the guaranteed one
+        else:
+            target.send_guaranteed(payload, cb)
     except Exception as ex:
         core.fail('send_guaranteed raised', error=type(ex).__name__ + ': ' + str(ex)[:60], api=api)
     q = c.outgoing_messages
@@ -71,7 +76,7 @@ def replay_l51(cfg, m):
     cm = real('mpgameserver.client')
     c.Packet.setMTU(m.get('mtu', 1500))
     try:
-        if cfg['api'] == 'client':
+        if cfg['api'].startswith('client'):
             u = cm.UdpClient()
             u.conn = c.ClientServerConnection(('srv', 9))
             u.conn.status = c.ConnectionStatus.CONNECTED
@@ -83,16 +88,24 @@ def replay_l51(cfg, m):
             target = cn
         data = os.urandom(m.get('p_len', 0))
         try:
-            target.send_guaranteed(data, lambda ok: None)
+            if cfg['api'] == 'client_send':
+                target.send(data, retry=c.RetryMode.RETRY_ON_TIMEOUT, callback=lambda ok: None)
+            elif cfg['api'] == 'client_send_default':
+                target.send(data, callback=lambda ok: None)
+            else:
+                target.send_guaranteed(data, lambda ok: None)
         except Exception as ex:
-            return True, '%s.send_guaranteed raised %s: %s' % (cfg['api'], type(ex).__name__, ex)
-        return len(cn.outgoing_messages) < 1, 'queued %d' % len(cn.outgoing_messages)
+            return True, '%s raised %s: %s' % (cfg['api'], type(ex).__name__, ex)
+        q = cn.outgoing_messages
+        bad = len(q) < 1 or any(getattr(m_, 'retry', None) != c.RetryMode.RETRY_ON_TIMEOUT and m_.type == c.PacketType.APP for m_ in q) \
+            or any(m_.type == c.PacketType.APP_FRAGMENT and cn.pending_fragments[cn.seq_fragment].retry != c.RetryMode.RETRY_ON_TIMEOUT for m_ in q)
+        return bad, 'queued %d message(s), retry obligations: %s' % (len(q), [getattr(m_, 'retry', None) for m_ in q][:3])
     finally:
         c.Packet.setMTU(1500)
 
 
-R.add('L5.1', l51, lambda tier: [dict(api=a, maxfrag=(2 if tier == 'quick' else 5)) for a in ('client', 'server')], replay=replay_l51,
-      desc='send_guaranteed on the client and on a server-side client object: accepted for every length, queued with a retry obligation',
+R.add('L5.1', l51, lambda tier: [dict(api=a, maxfrag=(2 if tier == 'quick' else 5)) for a in ('client', 'client_send', 'client_send_default', 'server')], replay=replay_l51,
+      desc='send_guaranteed on the client and on a server-side client object, UdpClient.send with RETRY_ON_TIMEOUT and with its default mode: accepted for every length, queued with a retry obligation',
       expect=['queued payload == sent payload', 'fragments reassemble to the sent payload', 'single message carries the retry obligation'],
       bounds='L <= MAX_PAYLOAD_SIZE + 2 (thorough 5) * MAX_FRAGMENT_SIZE, MTU 512..1500')
 
